@@ -1,5 +1,5 @@
 import NomtModel.Store.BranchUpdRelease
-import NomtModel.Store.BranchUpdKeys
+import NomtModel.Store.BranchUpdExamples
 /-!
 # C19 — the branch stage frees the page of every replaced branch node exactly once
 
@@ -37,21 +37,6 @@ theorem T19_branch_released_once (kf : KF) (db : List DbNode) (cs : List (Nat ×
   exact List.mem_append.1 this
 
 /-! ## non-vacuity -/
-
-/-- a node as `BranchNodeBuilder::new(n, n, prefix_len(first, last)) + push × n` writes it -/
-def exNode (keys : List (Nat × Nat)) : Node :=
-  let ks := keys.map (·.1)
-  let pl := match ks with | [k] => kfReal.sl k | k :: r => kfReal.pl k (r.getLast?.getD k) | [] => 0
-  ⟨pl, keys.length, keys.map fun (k, pn) => ⟨k, pn, kfReal.sl k - pl⟩⟩
-
-def exKey (a b : Nat) : Nat := a * 2 ^ 248 + b * 2 ^ 200
-
-/-- four small nodes; the fifth is far away and is not touched -/
-def exDb : List DbNode :=
-  [⟨exKey 0 0, 1, exNode [(exKey 0 0, 10), (exKey 0 5, 11), (exKey 0 9, 12)]⟩,
-   ⟨exKey 1 0, 2, exNode [(exKey 1 0, 20), (exKey 1 3, 21)]⟩,
-   ⟨exKey 2 0, 3, exNode [(exKey 2 0, 30), (exKey 2 7, 31)]⟩,
-   ⟨exKey 3 0, 4, exNode [(exKey 3 0, 40)]⟩]
 
 /-- one delete in the first node: it is under-full, the merge cascades over all followers (every node is rewritten and
 released); one update in the third node only: the first two nodes stay, the third is under-full and is merged with the
